@@ -148,7 +148,14 @@ class Engine(GenericConcreteEngine[Callable[..., Any]]):
                 return tree, False, ("backtracking through binary operations is not implemented",)
             case Transfer(target=target) as transfer:
                 if target.engine == preferred:
-                    return transfer.reapply(operation.apply(target)), True, ()
+                    upstream = operation.apply(target)
+                    if upstream.engine == self:
+                        # The operation was elided in favor of a relation that
+                        # is already in this engine (e.g. a join to a join
+                        # identity returns the other operand); there is
+                        # nothing left to transfer.
+                        return upstream, True, ()
+                    return transfer.reapply(upstream), True, ()
                 else:
                     upstream, done, messages = target.engine.backtrack_unary(operation, target, preferred)
                     return (transfer.reapply(upstream), done, messages)
